@@ -44,7 +44,7 @@ ASSUMPTIONS = [
 KINDS = ("supervised", "semi", "unsup")
 
 
-EXPECTED_PROBES = ['get_distances_after_caller_modified_an_earlier_result', 'unsupervised_fit_without_labels', 'precomputed_flag_switched_on_a_file_backed_model', 'refit_with_other_index_set', 'non_contiguous_data_set', 'non_float64_data_set', 'asymmetric_metric', 'call_raises_consistently', 'file_overwritten_after_a_model_read_it', 'fit_after_file_overwritten', 'integer_valued_metric', 'non_identity_index_array', 'path_overwritten', 'unsupervised_best_k_gt_1']
+EXPECTED_PROBES = ['caller_reused_its_index_array_after_fit', 'get_distances_after_caller_modified_an_earlier_result', 'unsupervised_fit_without_labels', 'precomputed_flag_switched_on_a_file_backed_model', 'refit_with_other_index_set', 'non_contiguous_data_set', 'non_float64_data_set', 'asymmetric_metric', 'call_raises_consistently', 'file_overwritten_after_a_model_read_it', 'fit_after_file_overwritten', 'integer_valued_metric', 'non_identity_index_array', 'path_overwritten', 'unsupervised_best_k_gt_1']
 
 SLOW_ARMS = ("restart",)
 
@@ -102,7 +102,7 @@ def gen_case(rng, arm, tier, k=0):
         dtype = rng.choice(B.DTYPES)
         metric = rng.choice(B.DTYPE_METRICS)
         D = [[float(int(abs(v)) % 4) for v in r] for r in D]
-    mk = rng.randint(1, max(1, min(4, len(train) - 1)))
+    mk = rng.randint(1, max(1, min(4 if rng.random() < 0.7 else 11, len(train) - 1)))
     case = {"kind": kind, "metric": metric, "style": style, "ext": ext, "D": D, "Y": Y, "train": train, "unl": unl, "test": test, "max_k": mk, "min_k": rng.randint(1, mk), "dtype": dtype, "layout": rng.choice(("c", "c", "c", "f", "strided", "cols")), "no_labels": kind == "unsup" and rng.random() < 0.4}
     # an alternative selection/order of the labelled rows for re-fits of the same model objects
     if kind == "semi":
@@ -307,6 +307,14 @@ def run_case(case):
                     if kind == "semi":
                         ra = attempt(A.fit, Xtr.copy(), Ytr.copy(), Xun.copy()) if off else attempt(A.fit, Xtr.copy(), Ytr.copy(), Xun.copy(), Itr.copy())
                         rb = attempt(Bm.fit, Xtr.copy(), Ytr.copy(), Xun.copy())
+                    elif not off and not case.get("no_labels") and (k + len(s_tr)) % 4 == 0:
+                        # the caller keeps using its own index array after the fit (here: sorts it in place)
+                        I_keep = Itr.copy()
+                        ra = attempt(A.fit, Xtr.copy(), Ytr.copy(), I_keep)
+                        I_keep.sort()
+                        I_keep[:] = I_keep[::-1].copy()
+                        rb = attempt(Bm.fit, Xtr.copy(), Ytr.copy())
+                        bump(out.probes, "caller_reused_its_index_array_after_fit")
                     elif case.get("no_labels") and kind == "unsup":
                         # clustering without labels: the index array is passed by keyword
                         ra = attempt(A.fit, Xtr.copy()) if off else attempt(lambda: A.fit(Xtr.copy(), I_train=Itr.copy()))
